@@ -103,7 +103,7 @@ def parseCircOp (op : Json) : R (CircOp GQ) := do
 def circStep (pool : Pool) (op : Json) : R (Pool × String) := do
   let cop ← parseCircOp op
   match heapStep pool cop with
-  | none => .error s!"op refers to an unknown circuit: {op.compress}"
+  | none => return (pool, "KeyError")  -- unknown object id: the harness reports the same
   | some (p', none) => return (p', "ok")
   | some (p', some e) => return (p', e.toString)
 
